@@ -96,8 +96,10 @@ class World:
         s.lay_grid_at(o, 0, grid)
         return o
 
-    def mk_generator(s, name, grid, knots):
-        """A BSplineGenerator<double>: {Grid, std::vector<double> knots}; layout from the module's struct type."""
+    def mk_generator(s, name, grid, knots, native=None, concrete_knots=None):
+        """A BSplineGenerator<double>: {Grid, std::vector<double> knots}; layout from the module's struct type. Members the harness
+        does not know (added by a change: caches, flags) start with the bytes they have in a generator really constructed by the
+        native build from `concrete_knots` - the state of a fresh object; without a native build they stay unconstrained."""
         T = s.mod.types.get('%"class.bspline::BSplineGenerator"')
         if T is None: raise EngineError('no BSplineGenerator type in the module')
         offs, size, _ = T.layout(s.mod)
@@ -105,6 +107,18 @@ class World:
         s.lay_grid_at(gen, offs[0], grid)
         s.ex.poke(s.st, gen, offs[1], bv(kn.base)); s.ex.poke(s.st, gen, offs[1] + 8, bv(kn.base + 8 * len(knots))); s.ex.poke(s.st, gen, offs[1] + 16, bv(kn.base + 8 * len(knots)))
         for i, k in enumerate(knots): s.ex.poke(s.st, kn, 8 * i, k)
+        known = [(offs[0], offs[0] + s.grid_layout()['size']), (offs[1], offs[1] + 24)]
+        unknown = [b for b in range(size) if not any(lo <= b < hi for lo, hi in known)]
+        if unknown and native is not None and concrete_knots is not None and hasattr(native.lib, 'n_mk_generator'):
+            import ctypes
+            native.lib.n_sizeof_generator.restype = ctypes.c_size_t; native.lib.n_mk_generator.restype = ctypes.c_void_p
+            native.lib.n_mk_generator.argtypes = [ctypes.POINTER(ctypes.c_double), ctypes.c_size_t]
+            if native.lib.n_sizeof_generator() != size: raise EngineError('generator size differs between the IR (%d) and the native build (%d)' % (size, native.lib.n_sizeof_generator()))
+            arr = (ctypes.c_double * len(concrete_knots))(*concrete_knots)
+            ptr = native.lib.n_mk_generator(arr, len(concrete_knots))
+            if not ptr: raise EngineError('native generator construction refused')
+            raw = ctypes.string_at(ptr, size)
+            for b in unknown: gen.arr = z3.Store(gen.arr, bv(b), bv(raw[b], 8))
         return gen
 
     def grid_obj_of(s, grid):
